@@ -54,6 +54,12 @@ var (
 func genC05(t *rapid.T) c05Case {
 	c := c05Case{}
 	format := rapid.SampledFrom(c05Formats).Draw(t, "format")
+	if rapid.IntRange(0, 15).Draw(t, "deepChain") == 7 {
+		c.H = gen.DrawDeepHierarchy(t, format)
+		c.Units = gen.DrawDeepUnits(t, c.H)
+		c.R = gen.DrawHRender(t, format, len(c.Units))
+		return c
+	}
 	c.H = gen.DrawHierarchy(t, format, gen.HierOpts{Tags: c05Tags})
 	c.Units = gen.DrawUnits(t, c.H, c05Tags)
 	c.R = gen.DrawHRender(t, format, len(c.Units))
@@ -356,6 +362,12 @@ func c05HierClasses(h gen.Hierarchy) []string {
 		}
 	}
 	add(fmt.Sprintf("depth=%d", maxDepth))
+	if maxDepth >= 7 {
+		add("deep-chain")
+	}
+	if maxDepth >= 10 {
+		add("nesting>=10") // the readers' frame stacks start with capacity 10
+	}
 	if h.ImplicitTarget {
 		add("implicit-target")
 	}
